@@ -11,8 +11,7 @@ ASSUMPTIONS = [
     "inputs of the model that other properties own are universally quantified in the theorems and taken from the real stores in the "
     "correspondence: the validator queue one version back (C10), the cumulative signed-block counts of the missed-votes scan, the "
     "outcome of the non-allegation part of the staking handlers (C11)",
-    "float64 quotients of the tally are modelled exactly (53-bit round-to-nearest-even of a rational; products below 2^53); the "
-    "exact-rational reading of the property is proved outside the Coq-defined trigger float_tally_mismatch and refuted inside it",
+    "the tally is exact integer arithmetic (as the code since /repo d95b5d2); evidence options with positive decimals",
     "penalty = floor(stake*base/dec + 1/2) models big.Float with a 64-bit mantissa exactly when stake*base < 2^63 "
     "(Coq examples compare with a bit-exact big.Float model; validated on the real code by the correspondence)",
     "block times are whole seconds in UTC, so FrozenAt.AddDate(0,0,d) = FrozenAt + d*86400 s",
@@ -22,7 +21,7 @@ ASSUMPTIONS = [
     "verdict theorem are those of the same id",
 ]
 
-TRIGGERS = {1: "C19.float_tally_mismatch"}
+TRIGGERS = {}   # no known finding is left: all three C19 findings are repaired in /repo (fixed entries, corpus replays)
 CODES = {
     1: "an account that is not an active validator opened an allegation",
     2: "a vote was accepted from a non-active or frozen validator, or a second vote of the same validator",
